@@ -252,6 +252,8 @@ def run(ctx, host=None):
             val = n.value
         elif isinstance(n, ast.AugAssign) and isinstance(n.target, ast.Name) and n.target.id == arglist:
             val = n.value
+        elif isinstance(n, ast.Call) and isinstance(n.func, ast.Attribute) and isinstance(n.func.value, ast.Name) and n.func.value.id == arglist and n.func.attr in ('append', 'extend', 'insert') and n.args:
+            val = n.args[-1]   # all_args.append('-vv') / .extend([...]) / .insert(i, x): the same options, added one by one
         if val is None:
             continue
         for c in const_strings(val):
